@@ -138,7 +138,14 @@ def prop_trained(case, rec):
         trainer.write_counted_file(path, entries, 'utf-8', pad={'prefix': 0, 'prefix_padded': 7}[case['spelling']])
     else:
         trainer.write_training_file(path, [p for p, c in entries for _ in range(c)], 'utf-8')
-    r = guard(case, trainer.train, path, os.path.join(_TDIR, 'R'), encoding='utf-8', prefixcount=prefix, coverage=case['coverage'])
+    words = [w for w in case.get('pretrain_words') or [] if check_valid(w)]
+    mw_path = False
+    if words:
+        # trainer.py -m WORDLIST: every word of the list counts as seen threshold times before the training set is read
+        mw_path = os.path.join(_TDIR, 'words.txt')
+        trainer.write_training_file(mw_path, words, 'utf-8')
+        rec.cls('trained_with_multiword_list')
+    r = guard(case, trainer.train, path, os.path.join(_TDIR, 'R'), encoding='utf-8', prefixcount=prefix, coverage=case['coverage'], multiword=mw_path)
     if not r.ok:
         if r.error is not None and not isinstance(r.error, ZeroDivisionError):
             raise Violation('crash:' + type(r.error).__name__, f'run_trainer raised {r.error!r}', case)
@@ -146,6 +153,8 @@ def prop_trained(case, rec):
         return
     expanded = [p for p, c in entries for _ in range(c)]
     model = segoracle.MWModel()
+    for w in words:
+        model.train(w, set_threshold=True)
     for p in expanded:
         model.train(p)
     got = [pw for pw, _ in r.sections]
@@ -189,7 +198,12 @@ def trained_cases(draw):
         if p not in seen and len(p) <= 30:
             seen.add(p)
             out.append([p, c])
-    return {'entries': out, 'spelling': draw(st.sampled_from(['plain', 'prefix', 'prefix', 'prefix_padded'])), 'coverage': draw(st.sampled_from([0.6, 1]))}
+    pre = []
+    if draw(st.integers(0, 2)) == 0:
+        # a -m word list that overlaps the training set: compounds and parts, some of them also in the list a few times
+        pre = draw(st.lists(st.sampled_from([''.join(ws), ''.join(ws[:2]), ws[0], ws[-1], 'blackbird', 'sunshine']), min_size=1, max_size=3, unique=True))
+    return {'entries': out, 'spelling': draw(st.sampled_from(['plain', 'prefix', 'prefix', 'prefix_padded'])), 'coverage': draw(st.sampled_from([0.6, 1])),
+            'pretrain_words': pre}
 
 
 def run_trained(rec, seed, shard, nshards, tier):
